@@ -40,9 +40,10 @@ var gitCmd = &cobra.Command{
 		isFullMessage := cmd.Flag("full").Value.String() == "true"
 		size := gitCmdConfig.Size
 
-		table := cmd_util.NewOutput(output)
-
 		if cmd.Flag("basic").Value.String() == "true" {
+			// every section prints a table of its own: one shared table kept the header cells and the rows of the sections
+			// printed before (`coca git -b -t` listed Commits / Entities / ... among the files of the team summary)
+			table := cmd_util.NewOutput(output)
 			basicSummary := BasicSummary(commitMessages)
 			table.SetHeader([]string{"Statistic", "Number"})
 			table.Append([]string{"Commits", strconv.Itoa(basicSummary.Commits)})
@@ -53,6 +54,7 @@ var gitCmd = &cobra.Command{
 		}
 
 		if cmd.Flag("team").Value.String() == "true" {
+			table := cmd_util.NewOutput(output)
 			teamSummary := GetTeamSummary(commitMessages)
 			table.SetHeader([]string{"EntityName", "RevsCount", "AuthorCount"})
 
@@ -75,6 +77,7 @@ var gitCmd = &cobra.Command{
 				agesDisplay = append(agesDisplay, CodeAgeDisplay{EntityName: info.EntityName, Month: displayMonth})
 			}
 
+			table := cmd_util.NewOutput(output)
 			table.SetHeader([]string{"EntityName", "Month"})
 
 			if len(agesDisplay) > size && isFullMessage {
@@ -87,6 +90,7 @@ var gitCmd = &cobra.Command{
 		}
 
 		if cmd.Flag("top").Value.String() == "true" {
+			table := cmd_util.NewOutput(output)
 			authors := GetTopAuthors(commitMessages)
 			table.SetHeader([]string{"Author", "CommitCount", "LineCount"})
 
